@@ -5,6 +5,7 @@ import CG.Driver.GraphCodec
 import CG.Driver.HQuery
 import CG.Driver.HTopo
 import CG.Driver.HDsep
+import CG.Driver.HAlias
 
 /-- stateless handlers: first token of a line selects the handler -/
 def handlers : List (String × (List String → String)) := [
@@ -13,6 +14,7 @@ def handlers : List (String × (List String → String)) := [
   ("q10", CG.Driver.Query.handle),
   ("topo", CG.Driver.Topo.handle),
   ("dsep", CG.Driver.Dsep.handle),
+  ("alias", CG.Driver.Alias.handle),
   ("gecho", fun args => match args with
     | [t] => (match CG.Driver.GraphCodec.decGraph? t with | some g => CG.Driver.GraphCodec.encGraph g | none => "bad-op")
     | _ => "bad-op")
